@@ -41,12 +41,13 @@ type LexerContext interface {
 }
 
 type CTELexerContext struct {
-	verbatimSentinel string
+	verbatimSentinel []rune
 	verbatimIndex    int
 }
 
 func (_this *CTELexerContext) RecordVerbatimSentinel(text string) {
-	_this.verbatimSentinel = text
+	_this.verbatimSentinel = []rune(text)
+	_this.verbatimIndex = 0
 }
 
 func (_this *CTELexerContext) IsAtVerbatimSentinel(stream antlr.CharStream) bool {
